@@ -63,6 +63,6 @@ HeaderSize == 24
 DataOffsetOf(reserved, unify) == IF unify THEN Align8(reserved) + 8 + HeaderSize ELSE reserved + 1
 
 \* the pattern byte the harness writes through handle h, and into the reserved prefix
-PatternOf(h) == ((h - 1) % 200) + 1
+PatternOf(h) == ((h - 1) % 250) + 1
 ReservedPattern == 238
 =============================================================================
